@@ -765,3 +765,25 @@ def run(index, rep, tier):
                     rep.check(not by_id, "R09.24", fi.qualname, "`%s` keyed by id()" % norm(x.value), fn_where(fi, x), "%s: %s keyed by the object" % (fi.name, norm(x.value)),
                               "%s keys `%s` by `%s`, an id(): the table then holds no reference to the object, and the writer requests ids for temporary objects (one fresh object() per column that has no character type) - CPython hands the freed address to the next one, so all those columns get ONE id and a matrix built from a dictionary, NEXUS, FASTA or PHYLIP comes back from NeXML with a single state per row" % (fi.qualname, norm(x.value), norm(k)))
         rep.floor("R09.24", "subscripts of the NeXML writer's id tables", 8, n24)
+
+    # ---- R09.25 a quoted `;` is a label in the NEXUS label lists too
+    with rep.section("R09.25"):
+        rep.rule("R09.25", "a quoted `;` is a label: where the NEXUS reader loops `while token != ';'` over tokens that it takes for taxon labels (TAXLABELS, the rows of a MATRIX) the loop test also consults the tokenizer's is_token_quoted flag - the writer quotes a label that is exactly `;`, the tokenizer hands it back bare, and the list or the matrix would end at that taxon (a truncated or empty matrix, no error)")
+        n25 = 0
+        for fi in index.functions_in_module(DIO + "nexusreader"):
+            for lp in walk_no_nested(fi.node):
+                if not isinstance(lp, ast.While):
+                    continue
+                cmps = [x for x in ast.walk(lp.test) if isinstance(x, ast.Compare) and len(x.ops) == 1 and isinstance(x.ops[0], (ast.Eq, ast.NotEq)) and isinstance(x.comparators[0], ast.Constant) and x.comparators[0].value == ";" and isinstance(x.left, ast.Name)]
+                if not cmps:
+                    continue
+                tv = cmps[0].left.id
+                as_label = any((isinstance(c, ast.Call) and any(k.arg == "label" and norm(k.value) == tv for k in c.keywords)) for st in lp.body for c in ast.walk(st)) \
+                    or any(isinstance(a, ast.Assign) and norm(a.value) == tv and any("label" in norm(t) for t in a.targets) for st in lp.body for a in ast.walk(st))
+                if not as_label:
+                    continue
+                n25 += 1
+                ok = any(isinstance(y, ast.Attribute) and y.attr == "is_token_quoted" for y in ast.walk(lp.test))
+                rep.check(ok, "R09.25", fi.qualname, "label list ended by a bare comparison with `;`", fn_where(fi, lp), "%s: the loop test consults is_token_quoted" % fi.name,
+                          "%s reads taxon labels in a loop that stops at `%s == ';'` without asking whether the token was quoted: a taxon whose label is exactly `;` is written `';'` and read back as the end of the statement - the TAXLABELS list (or the matrix) stops there, later rows are lost or attached to the wrong statement, and nothing is reported" % (fi.qualname, tv))
+        rep.floor("R09.25", "label-reading loops of the NEXUS reader", 4, n25)
